@@ -26,14 +26,29 @@ def main():
     gate_hits = core.gate()
     pinfo = core.props_info(a.pid)
     mod = importlib.import_module(a.pid.lower())
+    # global watchdog: a check that does not finish (e.g. uberjob.run hangs under a broken engine) is reported, not left hanging
+    import threading
+
+    def watchdog():
+        ctx.broke("check did not finish within its time budget (possible hang of uberjob.run)", {"budget_s": budget})
+        rc = core.finish(ctx, pinfo, gate_hits, build_ok, build_log,
+                         trusted_base=getattr(mod, "TRUSTED_BASE", []) + core_tb(), rule=getattr(mod, "RULE", ""))
+        sys.stdout.flush()
+        os._exit(rc or 1)
+    budget = 1200 if a.tier == "quick" else 4 * 3600
+    wd = threading.Timer(budget, watchdog)
+    wd.daemon = True
+    wd.start()
     try:
         mod.run(ctx)
     except Exception:
         ctx.broke("harness error in %s" % a.pid, traceback.format_exc()[-3000:])
         traceback.print_exc()
+    wd.cancel()
     rc = core.finish(ctx, pinfo, gate_hits, build_ok, build_log,
                      trusted_base=getattr(mod, "TRUSTED_BASE", []) + core_tb(), rule=getattr(mod, "RULE", ""))
-    sys.exit(rc)
+    sys.stdout.flush()
+    os._exit(rc)      # daemon threads of a hung run must not keep the process alive
 
 
 def core_tb():
